@@ -122,4 +122,15 @@ structure Dom (x : Inp) : Prop where
   kept : 1 ≤ x.nKept
   times : x.times.length = x.clusters.length
 
+/-- `n_spk_clu` without effect: `None`, `0` or a negative number (`if n_spk_clu is not None and n_spk_clu > 0`) -/
+def NoCount (x : Inp) : Prop := match x.count with | none => True | some n => n ≤ 0
+
+/-- every spike a selection may return, stated in one filter over the spike ids: its cluster is requested, its time lies
+in a kept chunk when chunk restriction is on, it is listed in the subset when one is given -/
+def allEligible (x : Inp) : List Nat :=
+  (List.range x.clusters.length).filter fun i =>
+    x.req.contains (x.clusters.getD i 0) &&
+    (!x.subsetChunks || inKept x.bounds x.nKept (x.times.getD i 0)) &&
+    (match x.subset with | none => true | some s => s.contains i)
+
 end PhyVerif.C17
